@@ -120,8 +120,23 @@ func r03_1(c *Ctx, rule string) {
 				args := vc.Common().Args
 				if len(args) >= 4 {
 					// path argument is cp.path of the forwarded cp; stat argument wraps cp.stat
-					pOK := c.DerivesFrom(args[2], func(x ssa.Value) bool { return x == arg }, 4)
-					sOK := c.DerivesFrom(args[3], func(x ssa.Value) bool { return x == arg }, 6)
+					// (or the very values the forwarded entry was built from:
+					// `cp := &currentPath{path: path, stat: p.Stat}` ... HandleChange(kind, path, ...))
+					built := map[ssa.Value]bool{}
+					if al, isAlloc := eng.Strip(arg).(*ssa.Alloc); isAlloc {
+						for _, r := range eng.Referrers(al) {
+							if fa, isFA := r.(*ssa.FieldAddr); isFA {
+								for _, r2 := range eng.Referrers(fa) {
+									if st, isSt := r2.(*ssa.Store); isSt && st.Addr == ssa.Value(fa) {
+										built[eng.Strip(st.Val)] = true
+									}
+								}
+							}
+						}
+					}
+					isEntry := func(x ssa.Value) bool { return x == arg || built[x] || built[eng.Strip(x)] }
+					pOK := c.DerivesFrom(args[2], isEntry, 4)
+					sOK := c.DerivesFrom(args[3], isEntry, 6)
 					if pOK && sOK {
 						same = true
 					}
